@@ -11,7 +11,7 @@
    public() is NOT written by hand: [prog_of_assigns] interprets the assignment list in the shape the
    translator regenerates from the source (Gen/GenFields.v); Glue/FieldsGlue.v proves the lists used
    here equal the regenerated ones. *)
-From Coq Require Import List String Ascii Bool.
+From Coq Require Import List String Ascii Bool ZArith.
 Import ListNotations.
 Open Scope string_scope.
 
@@ -916,3 +916,293 @@ Definition wal_default_export (o : wlop) : bool :=
   match o with LPmKey | LWif false | LAsDict false | LInfo | LRepr => true | _ => false end.
 Definition wal_mains (w : wallet) : list kobj :=
   match w with WSimple s => [sw_main s] | WMulti cos => map sw_main cos end.
+
+(* ================================================================== view entry points CALLED WITH ARGUMENTS ========
+   Every function that presents its result as public, with its full parameter list (regenerated: [entry_params]),
+   called with ARBITRARY argument values.  An argument value is abstracted to what the bodies look at: its Python
+   truth value (and, for the record, the constant itself); [ATop] is a value the model knows nothing about.
+
+   The helpers that only forward (HDKey.public_master_multisig -> HDKey.public_master, HDKey.wif_public ->
+   HDKey.wif) are NOT written by hand: [forward_env] interprets the regenerated keyword -> argument mapping of the
+   call ([call_forwards]: positional arguments resolved to the callee's parameter names), so a keyword that is fed
+   from the wrong caller argument changes what the model computes.  Fail closed: an unknown body, an unknown
+   argument expression or a missing table row behave like a request for the private key. *)
+Inductive aval := ANone | ABool (b : bool) | AInt (z : Z) | AStr (s : string) | ATop.
+Definition args := list (string * aval).
+
+Definition a_truth (v : aval) : tri :=
+  match v with
+  | ANone => TF
+  | ABool b => tri_of b
+  | AInt z => tri_of (negb (Z.eqb z 0))
+  | AStr s => tri_of (negb (String.eqb s ""))
+  | ATop => TU
+  end.
+Definition is_tf (t : tri) : bool := match t with TF => true | _ => false end.
+
+(* parameter NAMES that ask for private output (frozen; Glue/FieldsGlue.v checks that every parameter of every
+   public-view entry point is either one of these or one of the reviewed other names) *)
+Definition asks_private_params : list string := ["as_private"; "include_private"; "is_private"].
+Definition reviewed_plain_params : list string :=
+  [ "account_id"; "purpose"; "multisig"; "witness_type"; "prefix"; "child_index"; "name"; "network"; "detail";
+    "key_id"; "change"; "depth"; "used"; "has_balance"; "is_active"; "as_dict"; "index" ].
+(* a call does not ask for private output: every such argument that is passed is definitely false *)
+Definition no_private_request (a : args) : bool :=
+  forallb (fun n => match assoc a n with Some v => is_tf (a_truth v) | None => true end) asks_private_params.
+
+(* frozen copies of the regenerated tables *)
+Definition public_named_defs : list string :=
+  [ "Key.public_uncompressed_hex"; "Key.public_uncompressed_byte"; "Key.public"; "Key.public_point";
+    "HDKey.wif_public"; "HDKey.public_master"; "HDKey.public_master_multisig"; "HDKey.child_public"; "HDKey.public";
+    "Signature.public_key"; "WalletKey.keys_public"; "WalletKey.public"; "Wallet.public_master" ].
+(* public-named functions that are not views of a private key: the public key a signature was made with *)
+Definition public_named_other : list string := [ "Signature.public_key" ].
+Definition entry_params : list (string * list (string * string)) :=
+  [ ("Key.public", []);
+    ("Key.as_dict", [("include_private", "False")]);
+    ("Key.as_json", [("include_private", "False")]);
+    ("Key.wif", [("prefix", "None")]);
+    ("Key.info", []);
+    ("HDKey.public", []);
+    ("HDKey.as_dict", [("include_private", "False")]);
+    ("HDKey.as_json", [("include_private", "False")]);
+    ("HDKey.wif", [("is_private", "None"); ("child_index", "None"); ("prefix", "None"); ("witness_type", "None"); ("multisig", "None")]);
+    ("HDKey.wif_public", [("prefix", "None"); ("witness_type", "None"); ("multisig", "None")]);
+    ("HDKey.info", []);
+    ("HDKey.public_master", [("account_id", "0"); ("purpose", "None"); ("multisig", "None"); ("witness_type", "None"); ("as_private", "False")]);
+    ("HDKey.public_master_multisig", [("account_id", "0"); ("purpose", "None"); ("witness_type", "None"); ("as_private", "False")]);
+    ("Address.as_dict", []);
+    ("Address.as_json", []);
+    ("WalletKey.public", []);
+    ("WalletKey.as_dict", [("include_private", "False")]);
+    ("WalletKey.key", []);
+    ("Wallet.public_master", [("account_id", "None"); ("name", "None"); ("as_private", "False"); ("witness_type", "None"); ("network", "None")]);
+    ("Wallet.wif", [("is_private", "False"); ("account_id", "0")]);
+    ("Wallet.as_dict", [("include_private", "False")]);
+    ("Wallet.as_json", [("include_private", "False")]);
+    ("Wallet.info", [("detail", "3")]);
+    ("Wallet.keys", [("account_id", "None"); ("name", "None"); ("key_id", "None"); ("change", "None"); ("depth", "None"); ("used", "None"); ("is_private", "None"); ("has_balance", "None"); ("is_active", "None"); ("witness_type", "None"); ("network", "None"); ("include_private", "False"); ("as_dict", "False")]);
+    ("Wallet.account", [("account_id", "$required")]);
+    ("Key.public_uncompressed_hex", []);
+    ("Key.public_uncompressed_byte", []);
+    ("Key.public_point", []);
+    ("HDKey.child_public", [("index", "0"); ("network", "None")]);
+    ("WalletKey.keys_public", []) ].
+Definition entry_properties : list string :=
+  [ "Key.public_uncompressed_hex"; "Key.public_uncompressed_byte"; "WalletKey.keys_public" ].
+(* the forwarding calls the model interprets (the complete regenerated table is compared on these rows and, as a
+   whole, with [call_forwards_rest]) *)
+Definition fw_pmm : string * (string * list (string * string)) :=
+  ("HDKey.public_master_multisig",
+   ("self.public_master", [("account_id", "account_id"); ("purpose", "purpose"); ("multisig", "True");
+                           ("witness_type", "witness_type"); ("as_private", "as_private")])).
+Definition fw_wif_public : string * (string * list (string * string)) :=
+  ("HDKey.wif_public",
+   ("self.wif", [("is_private", "False"); ("prefix", "prefix"); ("witness_type", "witness_type"); ("multisig", "multisig")])).
+Definition call_forwards : list (string * (string * list (string * string))) :=
+  [ ("Key.as_dict", ("self.public_point", []));
+    ("Key.as_dict", ("self.wif", []));
+    ("Key.as_json", ("self.as_dict", [("include_private", "include_private")]));
+    ("Key.info", ("self.public_point", []));
+    ("Key.info", ("self.wif", []));
+    ("HDKey.as_dict", ("super(HDKey, self).as_dict", []));
+    ("HDKey.as_dict", ("self.wif_public", []));
+    ("HDKey.as_dict", ("self.wif", [("is_private", "True")]));
+    ("HDKey.as_json", ("self.as_dict", [("include_private", "include_private")]));
+    fw_wif_public;
+    ("HDKey.info", ("super(HDKey, self).info", []));
+    ("HDKey.info", ("self.wif_public", []));
+    ("HDKey.info", ("self.wif", [("is_private", "True")]));
+    ("HDKey.public_master", ("self.subkey_for_path(path).public", []));
+    fw_pmm;
+    ("Address.as_json", ("self.as_dict", []));
+    ("WalletKey.public", ("pub_key.key", []));
+    ("WalletKey.public", ("pub_key.key().wif", []));
+    ("WalletKey.public", ("pub_key._hdkey_object.public", []));
+    ("WalletKey.public", ("pub_key.key", []));
+    ("Wallet.public_master", ("key.public", []));
+    ("Wallet.public_master", ("key.public", []));
+    ("Wallet.public_master", ("cs.public_master", [("account_id", "account_id"); ("name", "name"); ("as_private", "as_private"); ("witness_type", "network")]));
+    ("Wallet.wif", ("self.public_master(account_id=account_id).key().wif", [("is_private", "is_private"); ("witness_type", "self.witness_type"); ("multisig", "self.multisig")]));
+    ("Wallet.wif", ("cs.wif", [("is_private", "is_private")]));
+    ("Wallet.wif", ("self.public_master(account_id=account_id).key", []));
+    ("Wallet.wif", ("self.public_master", [("account_id", "account_id")]));
+    ("Wallet.as_dict", ("self.keys", [("network", "netw.name"); ("include_private", "include_private"); ("as_dict", "True")]));
+    ("Wallet.as_dict", ("w.public_master().key().wif", []));
+    ("Wallet.as_dict", ("t.as_dict", []));
+    ("Wallet.as_dict", ("w.public_master().key", []));
+    ("Wallet.as_dict", ("t.as_dict", []));
+    ("Wallet.as_dict", ("w.public_master", []));
+    ("Wallet.as_json", ("self.as_dict", [("include_private", "include_private")]));
+    ("Wallet.info", ("self.keys", [("depth", "d"); ("network", "nw.name"); ("is_active", "is_active")]));
+    ("Wallet.info", ("cs.wif", [("is_private", "False")]));
+    ("Wallet.account", ("self.key", [("term", "key_id")]));
+    ("HDKey.child_public", ("self.public_point", []));
+    ("WalletKey.keys_public", ("self.key", [])) ].
+Definition pmm_body : list string := [ "return self.public_master(account_id, purpose, True, witness_type, as_private)" ].
+Definition hdkey_public_master_multisig_paths : list (list (string * bool) * list string) := [ ([], pmm_body) ].
+Definition wif_public_body : list string :=
+  [ "return self.wif(is_private=False, prefix=prefix, witness_type=witness_type, multisig=multisig)" ].
+Definition hdkey_wif_public_paths : list (list (string * bool) * list string) := [ ([], wif_public_body) ].
+(* HDKey.wif: the body the hand-written reading [hd_wif_env_exprs] below was made from (compared by Glue only): the
+   private key bytes are serialised only under `self.is_private and is_private` *)
+Definition hdkey_wif_paths : list (list (string * bool) * list string) :=
+  [ ([],
+     [ "if not witness_type: witness_type = DEFAULT_WITNESS_TYPE if not self.witness_type else self.witness_type";
+       "if not multisig: multisig = False if not self.multisig else self.multisig";
+       "rkey = self.private_byte or self.public_compressed_byte";
+       "if prefix and (not isinstance(prefix, bytes)): prefix = bytes.fromhex(prefix)";
+       "if self.is_private and is_private: if not prefix: prefix = self.network.wif_prefix(is_private=True, witness_type=witness_type, multisig=multisig) typebyte = b'\x00' else: if not prefix: prefix = self.network.wif_prefix(witness_type=witness_type, multisig=multisig) typebyte = b'' if not is_private: rkey = self.public_compressed_byte";
+       "if child_index is None: child_index = self.child_index";
+       "raw = prefix + self.depth.to_bytes(1, 'big') + self.parent_fingerprint + child_index.to_bytes(4, 'big') + self.chain + typebyte + rkey";
+       "chk = double_sha256(raw)[:4]";
+       "ret = raw + chk";
+       "return change_base(ret, 256, 58, 111)" ]) ].
+
+(* ---- constants, environments, forwarding *)
+Definition digit_of (c : ascii) : option Z :=
+  let n := nat_of_ascii c in if Nat.leb 48 n && Nat.leb n 57 then Some (Z.of_nat (n - 48)) else None.
+Fixpoint dec_of (s : string) (acc : Z) : option Z :=
+  match s with
+  | EmptyString => Some acc
+  | String c r => match digit_of c with Some d => dec_of r (acc * 10 + d)%Z | None => None end
+  end.
+Definition const_val (s : string) : option aval :=
+  if String.eqb s "None" then Some ANone
+  else if String.eqb s "True" then Some (ABool true)
+  else if String.eqb s "False" then Some (ABool false)
+  else match s with
+       | EmptyString => None
+       | _ => match dec_of s 0%Z with Some z => Some (AInt z) | None => None end
+       end.
+Definition default_val (d : string) : aval := match const_val d with Some v => v | None => ATop end.
+Definition params_of (tbl : list (string * list (string * string))) (m : string) : list (string * string) :=
+  match assoc tbl m with Some l => l | None => [] end.
+(* the value a parameter is bound to: the argument that was passed, else its default *)
+Definition bind (a : args) (n d : string) : aval := match assoc a n with Some v => v | None => default_val d end.
+Definition call_env (tbl : list (string * list (string * string))) (m : string) (a : args) : args :=
+  map (fun pd => (fst pd, bind a (fst pd) (snd pd))) (params_of tbl m).
+(* an argument expression of a forwarding call, evaluated in the caller's environment *)
+Definition eval_arg (env : args) (e : string) : aval :=
+  match const_val e with Some v => v | None => match assoc env e with Some v => v | None => ATop end end.
+Definition fbind (prs : list (string * string)) (env : args) (n d : string) : aval :=
+  match assoc prs n with Some e => eval_arg env e | None => default_val d end.
+Fixpoint find_forward (fw : list (string * (string * list (string * string)))) (caller callee_text : string)
+  : option (list (string * string)) :=
+  match fw with
+  | [] => None
+  | (c, (t, prs)) :: r =>
+      if String.eqb c caller && String.eqb t callee_text then Some prs else find_forward r caller callee_text
+  end.
+Definition forward_env (ptbl : list (string * list (string * string)))
+                       (fw : list (string * (string * list (string * string))))
+                       (caller callee_text callee : string) (env : args) : args :=
+  match find_forward fw caller callee_text with
+  | Some prs => map (fun pd => (fst pd, fbind prs env (fst pd) (snd pd))) (params_of ptbl callee)
+  | None => map (fun pd => (fst pd, ATop)) (params_of ptbl callee)
+  end.
+
+(* ---- HDKey.public_master(account_id, purpose, multisig, witness_type, as_private): the regenerated return paths *)
+Definition env_guard (env : args) (g : string) : tri := match assoc env g with Some v => a_truth v | None => TU end.
+Definition env_may_hold (env : args) (gs : list (string * bool)) : bool :=
+  forallb (fun gb => match env_guard env (fst gb) with TU => true | TT => snd gb | TF => negb (snd gb) end) gs.
+Inductive hpm_sem := HpmPrivate | HpmPublic | HpmRaw.
+Definition hpm_body_private : list string := (hdkey_pm_common ++ [ "return self.subkey_for_path(path)" ])%list.
+Definition hpm_body_public : list string := (hdkey_pm_common ++ [ "return self.subkey_for_path(path).public()" ])%list.
+Definition hpm_body_sem (b : list string) : hpm_sem :=
+  if strs_eqb b hpm_body_private then HpmPrivate
+  else if strs_eqb b hpm_body_public then HpmPublic
+  else HpmRaw.
+(* self.subkey_for_path(path): a NEW key object, private exactly when the source holds its secret *)
+Definition hd_child (k : kobj) : kobj :=
+  if kpriv k && truthy (kf k "secret") then init true (KPriv true) else init true KPubCompressed.
+Definition hpm_one (env : args) (k : kobj) (p : list (string * bool) * list string) : list (kobj * bool) :=
+  if env_may_hold env (fst p) then
+    match hpm_body_sem (snd p) with
+    | HpmPublic => [exec p_public (hd_child k)]
+    | HpmPrivate | HpmRaw => [(hd_child k, true)]
+    end
+  else [].
+Definition hpm_results (tbl : list (list (string * bool) * list string)) (env : args) (k : kobj) : list (kobj * bool) :=
+  flat_map (hpm_one env k) tbl.
+
+(* ---- HDKey.public_master_multisig(account_id, purpose, witness_type, as_private): forwards *)
+Definition hpmm_one (ptbl : list (string * list (string * string)))
+                    (fw : list (string * (string * list (string * string))))
+                    (pmt : list (list (string * bool) * list string)) (env : args) (k : kobj)
+                    (p : list (string * bool) * list string) : list (kobj * bool) :=
+  if env_may_hold env (fst p) then
+    if strs_eqb (snd p) pmm_body then
+      hpm_results pmt (forward_env ptbl fw "HDKey.public_master_multisig" "self.public_master" "HDKey.public_master" env) k
+    else [(hd_child k, true)]
+  else [].
+Definition hpmm_results ptbl fw (mpt pmt : list (list (string * bool) * list string)) (env : args) (k : kobj)
+  : list (kobj * bool) := flat_map (hpmm_one ptbl fw pmt env k) mpt.
+
+Definition hd_public_master (a : args) (k : kobj) : list (kobj * bool) :=
+  hpm_results hdkey_public_master_paths (call_env entry_params "HDKey.public_master" a) k.
+Definition hd_public_master_multisig (a : args) (k : kobj) : list (kobj * bool) :=
+  hpmm_results entry_params call_forwards hdkey_public_master_multisig_paths hdkey_public_master_paths
+               (call_env entry_params "HDKey.public_master_multisig" a) k.
+
+(* ---- HDKey.wif(is_private, ...) and HDKey.wif_public(prefix, witness_type, multisig): what the string is made of *)
+Definition hd_wif_env_exprs (k : kobj) (env : args) : list (string * expr) :=
+  match env_guard env "is_private" with
+  | TF => [("xkey", EFrom xpub_srcs)]
+  | TT | TU => [("xkey", hd_wif_expr k true)]
+  end.
+Definition wif_public_exprs ptbl fw (wpt : list (list (string * bool) * list string)) (a : args) (k : kobj)
+  : list (string * expr) :=
+  flat_map (fun p =>
+    if strs_eqb (snd p) wif_public_body then
+      hd_wif_env_exprs k (forward_env ptbl fw "HDKey.wif_public" "self.wif" "HDKey.wif" (call_env ptbl "HDKey.wif_public" a))
+    else [("xkey", hd_wif_expr k true)]) wpt.
+
+(* ---- histories whose operations carry arguments *)
+Inductive xop :=
+| XOp (o : op)
+| XPm (a : args)            (* HDKey.public_master(args): the focus moves to the returned key *)
+| XPmm (a : args)           (* HDKey.public_master_multisig(args) *)
+| XWifPublic (a : args)     (* HDKey.wif_public(args) *)
+| XHdWif (a : args).        (* HDKey.wif(args) *)
+(* every public-master path has a hardened level: only an HD key that holds its secret can be asked (the call raises
+   otherwise, before anything is returned) *)
+Definition hd_can_derive (k : kobj) : bool := khd k && kpriv k && truthy (kf k "secret").
+Definition first_result (l : list (kobj * bool)) (k : kobj) : kobj * bool :=
+  match l with r :: _ => r | [] => (k, false) end.
+Definition xstep (o : xop) (k : kobj) : kobj * bool :=
+  match o with
+  | XOp o => step o k
+  | XPm a => if hd_can_derive k then first_result (hd_public_master a k) k else (k, false)
+  | XPmm a => if hd_can_derive k then first_result (hd_public_master_multisig a k) k else (k, false)
+  | XWifPublic _ | XHdWif _ => (k, khd k)
+  end.
+Fixpoint xrun (h : list xop) (k : kobj) : kobj :=
+  match h with [] => k | o :: r => xrun r (fst (xstep o k)) end.
+Definition xexports (o : xop) (k : kobj) : list (string * fval) :=
+  match o with
+  | XOp o => exports o k
+  | XPm _ | XPmm _ => []
+  | XWifPublic a =>
+      if khd k then map (fun le => (fst le, eval (snd le) k))
+                        (wif_public_exprs entry_params call_forwards hdkey_wif_public_paths a k) else []
+  | XHdWif a =>
+      if khd k then map (fun le => (fst le, eval (snd le) k)) (hd_wif_env_exprs k (call_env entry_params "HDKey.wif" a)) else []
+  end.
+(* operations that present their result as public, for a call that does not ask for private output *)
+Definition xview (o : xop) : bool :=
+  match o with
+  | XOp OPublic | XOp OPublicMaster => true
+  | XPm a | XPmm a => no_private_request a
+  | _ => false
+  end.
+
+(* ---- Wallet.public_master(account_id, name, as_private, witness_type, network) with arguments: the account /
+        network / witness type select WHICH account-level key is the source (every one of them is derived from the
+        main key the same way); as_private decides, through its truth value, whether it is stripped *)
+Definition wallet_public_master_args (w : wallet) (a : args) : list kobj :=
+  match env_guard (call_env entry_params "Wallet.public_master" a) "as_private" with
+  | TF => wallet_public_master w false
+  | TT => wallet_public_master w true
+  | TU => (wallet_public_master w false ++ wallet_public_master w true)%list
+  end.
